@@ -149,6 +149,34 @@ def check_pattern(recipe, params, batches, T, nstar, plain_summary, twice=False)
     return "ok"
 
 
+def refine_pattern(recipe, params, batches, where, T, nstar):
+    """A local refinement (Solver.DoLocalRefinement) between the batches: the trial sequence is a function of the
+    problem and r, so the GLOBAL trials before and after it must still be the reference prefix (the refinement's
+    own evaluations are recognised by their position in the log; the refined result itself is C05's subject)."""
+    import contextlib
+    run = Run(recipe, params, record=False)
+    local = []
+    try:
+        for j, k in enumerate(batches):
+            run.step(k)
+            if j == where:
+                a = len(run.problem.log)
+                with contextlib.redirect_stdout(run.out):
+                    run.solver.DoLocalRefinement(3)
+                local.append((a, len(run.problem.log)))
+        run.solve()
+    except Exception as e:
+        if "outside of interval" in str(e):
+            return "skip"
+        raise
+    got = [(y, v) for i, (_, y, v) in enumerate(run.problem.log) if not any(a <= i < b for a, b in local)]
+    want = T[:max(sum(batches), nstar)]
+    if got != want:
+        fail("batches %r with DoLocalRefinement after batch %d, then Solve: %d global trials, reference prefix has "
+             "%d; first difference at %s" % (batches, where + 1, len(got), len(want), first_diff(got, want)))
+    return "ok"
+
+
 def all_compositions(total):
     if total == 0:
         yield []
@@ -210,6 +238,8 @@ def cases(draw):
     case = {"recipe": recipe, "params": params, "batches": draw(gen.compositions(total, max_parts=8)),
             "twice": draw(st.booleans())}
     if draw(st.integers(0, 2)) == 0:
+        case["refine_after"] = draw(st.integers(0, 7))
+    if draw(st.integers(0, 2)) == 0:
         # repetition with the solver's default parameters, another solver (dimension 1..7, default parameters too)
         # being built and stepped between the two runs
         case["decoy"] = draw(gen.problem_recipe(dims=(1, 2, 3, 5, 6, 7), families=("cones", "sines", "linear")))
@@ -228,6 +258,8 @@ def body(case):
         fail("repeating the same run gives a different trial sequence or result")
     if case.get("decoy") is not None:
         default_repetition(recipe, case["decoy"])
+    if case.get("refine_after") is not None and "shipped" not in recipe:
+        refine_pattern(recipe, params, batches, case["refine_after"] % len(batches), T, nstar)
     res = check_pattern(recipe, params, batches, T, nstar, ps, twice=case["twice"])
     if res == "skip":
         return False, ["batch-float-resolution"]
